@@ -721,8 +721,8 @@ def _concretise_type(T: dict, sp: int, lit_ok: bool = True) -> t.Any:
 
 def make_class(C: dict, sp: int = 0) -> type:
     """Generate the PaneBase subclass described by the abstract class descriptor."""
-    key = canon(C)
-    cls = PANE_CLASSES.get(key)
+    key = canon(C) + '|' + str(sp)      # one class per spelling of its field types (a class spelled once and reused under
+    cls = PANE_CLASSES.get(key)         # another spelling would differ from the stand-alone spelling of its field types)
     if cls is not None:
         return cls
     ann: dict = {}
